@@ -52,6 +52,16 @@ def oracle(ctx, seeds=None):
                 t1 = float(g.time); q1 = np.array(g.data[0], dtype=float).copy()
                 s.step(g, dt)
                 out[name] = (t1, q1, float(g.time), np.array(g.data[0], dtype=float).copy())
+            # the same integrator object stepping with a different time step each time ("any dt": nothing may be remembered)
+            seq = []
+            for name in ('implicit', 'cranknicolson'):
+                s = getattr(impl.integ, name)(msh, disc)
+                g = f.copy()
+                for fac in (1.0, 37.0, 0.02, 5.0):
+                    q_in = np.array(g.data[0], dtype=float).copy()
+                    s.step(g, dt * fac)
+                    seq.append((name, fac, q_in, np.array(g.data[0], dtype=float).copy()))
+            out['seq'] = seq
             return out
         ok, out = impl.guarded(run)
         res.case((cfg['scheme'][0], cfg['bcL']['type'], cfg['mesh']['kind'], int(np.log10(cfl))))
@@ -81,6 +91,16 @@ def oracle(ctx, seeds=None):
             c2 = np.linalg.cond(3 * I - 2 * dt * A)
             if not np.max(np.abs(g2 - ref2)) <= 1e-8 * max(c2, 1) * (1 + cfl) * sc:
                 res.fail('gear:bdf2', "second gear step differs from the BDF2 solution by %r" % float(np.max(np.abs(g2 - ref2))), rp)
+        for (name, fac, q_in, q_out) in out['seq']:
+            d_ = dt * fac
+            th = 1.0 if name == 'implicit' else 0.5
+            ref = np.linalg.solve(I - th * d_ * A, q_in + (1 - th) * d_ * (A @ q_in) + d_ * b)
+            cnd = np.linalg.cond(I - th * d_ * A)
+            sc_ = float(np.max(np.abs(q_in))) + d_ * float(np.max(np.abs(b))) + 1e-300
+            if not np.max(np.abs(q_out - ref)) <= 1e-8 * max(cnd, 1.0) * (1 + cfl * fac) * sc_:
+                res.fail(name + ':linear-system:varying-dt', "step with dt*%r on an integrator that has stepped before differs from the exact linear solve by %r" %
+                         (fac, float(np.max(np.abs(q_out - ref)))), rp)
+                break
         # no growth on the circulant (normal) upwind operator
         if cfg['bcL']['type'] == 'per' and cfg['mesh']['kind'] == 'uni' and cfg['scheme'][0] == 'extrapol1':
             for name in ('implicit', 'cranknicolson'):
